@@ -45,7 +45,9 @@ type Req struct {
 }
 
 type Step struct {
-	Kind string `json:"kind"` // send | release | sleep | tick | nearexpire | expire | flood
+	Kind string `json:"kind"` // send | release | sleep | tick | nearexpire | expire | expire1 | flood
+	// (expire: to just after the last reply for the request + the lifetime; expire1: to just after the
+	// FIRST reply for it + the lifetime - replies to duplicates do not prolong the lifetime)
 	// (flood: the peer sends Copies further confirmable requests with message IDs of their own that
 	// the handler merely acknowledges - the traffic of a busy, long-lived connection between the
 	// examined requests and their retransmissions)
@@ -253,6 +255,7 @@ func Exec(t *testing.T, sc Scenario, shard int, r *evid.Run) (fail *evid.Failure
 		}
 		first := map[int]time.Duration{}
 		floods := 0
+		expiredOnce := map[int]bool{}
 		lastServerMID := -1
 		peerMIDs := map[int]bool{}
 		for _, q := range sc.Reqs {
@@ -349,7 +352,7 @@ func Exec(t *testing.T, sc Scenario, shard int, r *evid.Run) (fail *evid.Failure
 			case "tick":
 				tk.Tick()
 				settle()
-			case "nearexpire", "expire":
+			case "nearexpire", "expire", "expire1":
 				for j := range gates {
 					release(j)
 				}
@@ -361,6 +364,20 @@ func Exec(t *testing.T, sc Scenario, shard int, r *evid.Run) (fail *evid.Failure
 				var target time.Duration
 				if st.Kind == "nearexpire" {
 					target = f + lifetime - time.Duration(max(st.Ms, 1))*time.Millisecond
+				} else if st.Kind == "expire1" && !expiredOnce[st.Req] {
+					// (an unrelated datagram taken for the first reply only makes the target earlier: the
+					// copy that follows then falls into the span about which nothing is asserted)
+					firstReply := time.Duration(-1)
+					for _, rec := range link.Log() {
+						if m, ok := peer.ParseDatagram(rec.Data); ok && rec.Dir == 0 && rec.T >= f && firstReply < 0 &&
+							((m.Type == peer.ACK && m.MID == usedMID[st.Req]) || (len(m.Token) > 0 && bytes.Equal(m.Token, token(st.Req, sc.Reqs[st.Req].TokLen)))) {
+							firstReply = rec.T
+						}
+					}
+					if firstReply < 0 {
+						continue
+					}
+					target = firstReply + lifetime + time.Duration(max(st.Ms, 1))*time.Millisecond
 				} else {
 					// strictly after every reply to this request plus the lifetime
 					last := f
@@ -374,7 +391,8 @@ func Exec(t *testing.T, sc Scenario, shard int, r *evid.Run) (fail *evid.Failure
 				if d := target - time.Since(start); d > 0 {
 					time.Sleep(d)
 				}
-				if st.Kind == "expire" {
+				if st.Kind != "nearexpire" {
+					expiredOnce[st.Req] = true
 					tk.Tick()
 				}
 				settle()
@@ -588,7 +606,11 @@ func gen(t *rapid.T) Scenario {
 		case 9:
 			// lifetime boundary, then copies of the request it was computed for
 			j := rapid.IntRange(0, n-1).Draw(t, "req")
-			kind := rapid.SampledFrom([]string{"nearexpire", "expire"}).Draw(t, "boundary")
+			kind := rapid.SampledFrom([]string{"nearexpire", "expire", "expire1"}).Draw(t, "boundary")
+			if kind == "expire1" && rapid.Bool().Draw(t, "latedup") {
+				// a duplicate well after the first copy, but within its lifetime
+				sc.Steps = append(sc.Steps, Step{Kind: "send", Req: j, Copies: 1}, Step{Kind: "sleep", Ms: rapid.SampledFrom([]int{2000, 30000, 200000}).Draw(t, "dupafter")}, Step{Kind: "send", Req: j, Copies: 1})
+			}
 			sc.Steps = append(sc.Steps, Step{Kind: kind, Req: j, Ms: rapid.SampledFrom([]int{1, 2, 1000}).Draw(t, "eps")})
 			sc.Steps = append(sc.Steps, Step{Kind: "send", Req: j, Copies: rapid.SampledFrom([]int{1, 2}).Draw(t, "copies")})
 		}
